@@ -55,18 +55,20 @@ class NumpyOrSetEncoder(json.JSONEncoder):
                 '_is_numpy_array': True,
                 'shape': obj.shape
             }
-        # Case for numpy scalars
-        if isinstance(obj, (np.int32, np.int64)):
+        # Case for numpy scalars (of any width)
+        if isinstance(obj, np.bool_):
+            return bool(obj)
+        if isinstance(obj, np.integer):
             return int(obj)
-        if isinstance(obj, (np.float32, np.float64, np.float128)):
-            return int(obj)
+        if isinstance(obj, np.floating):
+            return float(obj)
 
         # Case for built-in Python sets
         if isinstance(obj, set):
             return {'data': list(obj), '_is_set': True}
 
         # If it is not a numpy array we fall back to base class encoder
-        return json.JSONEncoder(self, obj)  # type: ignore
+        return super().default(obj)
 
 
 def json_numpy_or_set_obj_hook(
